@@ -13,6 +13,8 @@ import threading
 from .. import core, realcode
 
 OPS = ['P0', 'P1', 'P2', 'P3', 'E0', 'E1', 'S+', 'S-', 'G', 'W']
+# e0 / e1: the entry cell is set again with THE SAME Cell object, re-targeted in place by the caller (for the model: the same as E0 / E1)
+REUSE = ['e0', 'e1']
 
 
 def books():
@@ -67,12 +69,21 @@ ENTRIES = [(0, 1, 1), (0, 2, 0)]
 def run_sequence(m, paths, seq, workdir):
     p = m['Parser']()
     outs = []
+    held = None
     for k, op in enumerate(seq):
         try:
             if op[0] == 'P':
                 p.set_excel_file_path(paths[int(op[1:])])
             elif op[0] == 'E':
-                p.set_entrypoint_cell(m['Cell'](*ENTRIES[int(op[1:])]))
+                held = m['Cell'](*ENTRIES[int(op[1:])])
+                p.set_entrypoint_cell(held)
+            elif op[0] == 'e':
+                t, c, r = ENTRIES[int(op[1:])]
+                if held is None:
+                    held = m['Cell'](t, c, r)
+                else:
+                    held.title, held.column, held.row = t, c, r
+                p.set_entrypoint_cell(held)
             elif op == 'S+':
                 p.enable_safety_check()
             elif op == 'S-':
@@ -99,11 +110,11 @@ def run_sequence(m, paths, seq, workdir):
 def run(tier, seed):
     chk = core.Check('C09', tier, seed)
     rng = chk.rng
-    chk.rule = ('facade: call sequences over {set path x3 (one workbook unsafe), set entry x2, enable/disable safety, get_translation, write_translation}: '
+    chk.rule = ('facade: call sequences over {set path x4 (one workbook unsafe), set entry x2 with a new Cell or with the caller\'s previous Cell object re-targeted in place, enable/disable safety, get_translation, write_translation}: '
                 'every sequence to length 4 (thorough; quick: length 3) plus random ones to length 8, against the Lean model (flag table regenerated from the source) '
                 'and against a fresh parser configured with the settings in force (spec). determinism: sha256 of the text of each workbook (whole file and from an '
                 'entry cell) across subprocesses with different PYTHONHASHSEED, after earlier translations of other workbooks in the same process, and from 4 '
-                'threads translating concurrently. distinct = distinct call sequences / (workbook, hash seed, warm-up) combinations')
+                'threads translating concurrently with a 1 µs switch interval. distinct = distinct call sequences / (workbook, hash seed, warm-up) combinations')
     chk.assumptions += ['process history, hash seeds and thread interleavings are sampled on the real code, not proved: the model takes the translation as a pure function '
                         'of (path, entry, safety) - partial for that clause',
                         'the workbook file is not modified between calls']
@@ -145,15 +156,21 @@ def run(tier, seed):
                 seqs.append(['S-', 'P2', q1, 'S+', q2])
                 seqs.append(['P2', q1, 'S-', q2, 'S+', q1])
                 seqs.append(['S-', 'P2', 'E0', q1, 'S+', q2, 'S-', q1])
+        for a in ('E0', 'E1', 'e0', 'e1'):       # the caller re-targets the Cell object it passed before and passes it again
+            for b in REUSE:
+                for q1 in ('G', 'W'):
+                    seqs.append(['P0', a, q1, b, 'G'])
+                    seqs.append(['P0', a, q1, b, 'W', 'P1', 'G'])
+                    seqs.append([a, 'P3', q1, b, q1, a.upper(), 'G'])
         nrand = 300 if tier == 'quick' else 4000
         for _ in range(nrand):
             n = rng.randint(4, 8)
-            seq = [rng.choice(OPS + ['G', 'G', 'W']) for _ in range(n - 1)] + [rng.choice(['G', 'W'])]
+            seq = [rng.choice(OPS + REUSE + ['G', 'G', 'W']) for _ in range(n - 1)] + [rng.choice(['G', 'W'])]
             seqs.append(seq)
         cases = []
         for seq in seqs:
             outs = run_sequence(m, paths, seq, d)
-            req = 'fc %s %d %s' % (' '.join(tab), len(seq), ' '.join(seq))
+            req = 'fc %s %d %s' % (' '.join(tab), len(seq), ' '.join(o.upper() if o in REUSE else o for o in seq))
             cases.append((req, ' '.join(outs), {'sequence': ' '.join(seq)}))
             chk.count('len:%d' % len(seq))
         chk.judge('facade-sequences', cases, sample_cap=4)
@@ -195,10 +212,16 @@ def determinism(chk, tier, paths, d):
                     except Exception as e:  # noqa
                         h = 'E' + type(e).__name__
                     out.append((os.path.basename(p), mode, h, 'thread=%d round=%d' % (idx, r)))
+    import sys
     outs = [[] for _ in range(4)]
     ts = [threading.Thread(target=work, args=(outs[i], i)) for i in range(4)]
-    [t.start() for t in ts]
-    [t.join() for t in ts]
+    interval = sys.getswitchinterval()
+    sys.setswitchinterval(1e-6)          # switch threads inside a parse, not only between translations
+    try:
+        [t.start() for t in ts]
+        [t.join() for t in ts]
+    finally:
+        sys.setswitchinterval(interval)
     for o in outs:
         for name, mode, h, where in o:
             chk.count('determinism:thread')
